@@ -153,6 +153,16 @@ func scalarSources(v ssa.Value, depth int) []fieldSrc {
 				name = fnPkg(f).Name() + "." + f.Name()
 			}
 			out = append(out, fieldSrc{"computed " + name + "(…)", x.Pos()})
+		case *ssa.Extract:
+			// one of several results of a module helper (`lower, upper := rangeBounds(paramRange)`): what the helper
+			// returns there, with its parameters read as the arguments of this call
+			if call, ok := x.Tuple.(*ssa.Call); ok && depth < 3 {
+				if hs, ok := helperResultSources(call, x.Index, depth); ok {
+					out = append(out, hs...)
+					continue
+				}
+			}
+			out = append(out, fieldSrc{fmt.Sprintf("?%T", o), v.Pos()})
 		case *ssa.Slice:
 			// a[:] of a local literal or a re-slice: the value is no longer the argument itself
 			if x.Low == nil && x.High == nil {
@@ -277,4 +287,46 @@ func resultFieldSources(fn *ssa.Function, depth int) map[string][]fieldSrc {
 		structSources(ret.Results[0], "")
 	}
 	return out
+}
+
+// helperResultSources: the sources of result ri of a call of a module helper, in the caller's terms.
+func helperResultSources(call *ssa.Call, ri int, depth int) ([]fieldSrc, bool) {
+	h := call.Common().StaticCallee()
+	if h == nil || h.Blocks == nil || !InModule(h) || call.Common().IsInvoke() || len(h.Params) != len(call.Common().Args) {
+		return nil, false
+	}
+	var out []fieldSrc
+	for _, ret := range returnsOf(h) {
+		if ri >= len(ret.Results) {
+			return nil, false
+		}
+		for _, cs := range scalarSources(ret.Results[ri], depth+1) {
+			if !strings.HasPrefix(cs.what, "arg") {
+				out = append(out, cs)
+				continue
+			}
+			var k int
+			suffix := ""
+			if i := strings.Index(cs.what, "["); i >= 0 {
+				suffix = cs.what[i:]
+				fmt.Sscanf(cs.what[:i], "arg%d", &k)
+			} else {
+				fmt.Sscanf(cs.what, "arg%d", &k)
+			}
+			if k < 0 || k >= len(call.Common().Args) {
+				return nil, false
+			}
+			for _, as := range scalarSources(call.Common().Args[k], depth+1) {
+				switch {
+				case suffix == "":
+					out = append(out, as)
+				case strings.HasPrefix(as.what, "arg") && !strings.Contains(as.what, "["):
+					out = append(out, fieldSrc{as.what + suffix, as.pos})
+				default:
+					out = append(out, fieldSrc{"?element of " + as.what, as.pos})
+				}
+			}
+		}
+	}
+	return out, len(out) > 0
 }
